@@ -209,6 +209,11 @@ pub fn tier_spec(prop: &str, tier: &str) -> TierSpec {
         "C13" => (16_000, 250_000),
         "C15" => (12_000, 200_000),
         "C18" => (6_000, 100_000),
+        "C02" => (10_000, 160_000),
+        "C03" => (12_000, 200_000),
+        "C04" => (12_000, 200_000),
+        "C05" => (12_000, 200_000),
+        "C06" => (12_000, 200_000),
         "C09" => (1_000, 16_000),
         "C10" => (16_000, 250_000),
         "C11" => (8_000, 120_000),
